@@ -4,11 +4,9 @@ package main
 
 import (
 	"bufio"
-	"bytes"
 	"context"
 	"fmt"
 	"net"
-	"runtime/pprof"
 	"sort"
 	"strings"
 	"sync"
@@ -27,7 +25,8 @@ import (
 // sink accepts); the serial identifies the record, its destination socket and its session key.
 //
 //	reset
-//	open H id peer            H = exit | fwd
+//	open H id peer            H = exit | fwd   (refused with OPEN_ERR when MaxConnections=6 is reached)
+//	openfail H kind id peer   an open that must fail: zero|loworder|notallowed|unresolvable|refused|nokey
 //	data H id peer serial     STREAM_DATA sealed under the session key of tunnel `serial`
 //	close H id peer | rst H id peer
 //	dsteof H serial           the destination closes its side of socket `serial`
@@ -90,52 +89,6 @@ func c17ID(n int) identity.AgentID {
 }
 func c17Num(id identity.AgentID) int { return int(id[15]) }
 
-// c17Sink is the destination: accepts connections, counts bytes per connection, notices closes.
-type c17Sink struct {
-	ln    net.Listener
-	mu    sync.Mutex
-	conns []net.Conn
-	recv  []int
-	gone  []bool // the other side (the handler) closed / reset the connection
-	self  []bool // we closed it ourselves
-}
-
-func c17NewSink() *c17Sink {
-	ln, err := net.Listen("tcp", "127.0.0.1:0")
-	must(err)
-	s := &c17Sink{ln: ln}
-	go func() {
-		for {
-			c, err := ln.Accept()
-			if err != nil {
-				return
-			}
-			s.mu.Lock()
-			i := len(s.conns)
-			s.conns = append(s.conns, c)
-			s.recv = append(s.recv, 0)
-			s.gone = append(s.gone, false)
-			s.self = append(s.self, false)
-			s.mu.Unlock()
-			go func() {
-				buf := make([]byte, 65536)
-				for {
-					n, err := c.Read(buf)
-					s.mu.Lock()
-					s.recv[i] += n
-					if err != nil {
-						s.gone[i] = true
-						s.mu.Unlock()
-						return
-					}
-					s.mu.Unlock()
-				}
-			}()
-		}
-	}()
-	return s
-}
-
 type c17Tunnel struct {
 	h      string
 	id     uint64
@@ -145,7 +98,11 @@ type c17Tunnel struct {
 	rec    interface{} // *exit.ActiveConnection or *forward.ActiveConnection
 }
 
+// c17MaxConns is MaxConnections of both handlers: small, so that histories reach the limit.
+const c17MaxConns = 6
+
 type c17World struct {
+	dead  *net.TCPAddr
 	ex    *exit.Handler
 	fw    *forward.Handler
 	wr    *c17Writer
@@ -162,12 +119,20 @@ func c17New() *c17World {
 	ecfg.AllowedRoutes = []*net.IPNet{loop}
 	ecfg.ConnectTimeout = 5 * time.Second
 	ecfg.IdleTimeout = time.Hour
+	ecfg.MaxConnections = c17MaxConns
+	ecfg.DNS = exit.DNSConfig{Servers: []string{"127.0.0.1:1"}, Timeout: 300 * time.Millisecond} // nothing resolves
 	w.ex = exit.NewHandler(ecfg, c17ID(0), w.wr)
 	w.ex.Start()
+	// a loopback port nobody listens on: dial is refused
+	dl, err := net.Listen("tcp", "127.0.0.1:0")
+	must(err)
+	w.dead = dl.Addr().(*net.TCPAddr)
+	dl.Close()
 	fcfg := forward.DefaultHandlerConfig()
-	fcfg.Endpoints = []forward.Endpoint{{Key: "k", Target: w.sinks["fwd"].ln.Addr().String()}}
+	fcfg.Endpoints = []forward.Endpoint{{Key: "k", Target: w.sinks["fwd"].ln.Addr().String()}, {Key: "dead", Target: w.dead.String()}}
 	fcfg.ConnectTimeout = 5 * time.Second
 	fcfg.IdleTimeout = time.Hour
+	fcfg.MaxConnections = c17MaxConns
 	w.fw = forward.NewHandler(fcfg, c17ID(0), w.wr)
 	w.fw.Start()
 	return w
@@ -184,29 +149,6 @@ func (w *c17World) teardown() {
 	}
 	w.fw.Stop()
 	w.ex.Stop()
-}
-
-func c17Wait(what string, cond func() bool) {
-	deadline := time.Now().Add(8 * time.Second)
-	for !cond() {
-		if time.Now().After(deadline) {
-			panic("timeout waiting for " + what)
-		}
-		time.Sleep(200 * time.Microsecond)
-	}
-}
-
-// readLoops counts live readLoop goroutines of both handlers.
-func c17ReadLoops() int {
-	var b bytes.Buffer
-	pprof.Lookup("goroutine").WriteTo(&b, 2)
-	n := 0
-	for _, g := range strings.Split(b.String(), "\n\n") {
-		if strings.Contains(g, "(*Handler).readLoop(") {
-			n++
-		}
-	}
-	return n
 }
 
 func (w *c17World) record(h string, id uint64) interface{} {
@@ -304,10 +246,11 @@ func init() {
 				w.req++
 				req := w.req
 				tag := fmt.Sprintf("%d:%d", peer, id)
+				// a synchronous error (connection limit) is reported to the peer as OPEN_ERR as well
 				if h == "exit" {
-					must(w.ex.HandleStreamOpen(context.Background(), id, req, c17ID(peer), "127.0.0.1", uint16(w.sinks["exit"].ln.Addr().(*net.TCPAddr).Port), pub))
+					_ = w.ex.HandleStreamOpen(context.Background(), id, req, c17ID(peer), "127.0.0.1", uint16(w.sinks["exit"].ln.Addr().(*net.TCPAddr).Port), pub)
 				} else {
-					must(w.fw.HandleStreamOpen(context.Background(), id, req, c17ID(peer), "k", pub))
+					_ = w.fw.HandleStreamOpen(context.Background(), id, req, c17ID(peer), "k", pub)
 				}
 				c17Wait("open answer", func() bool { return w.wr.has("ack:"+tag) || w.wr.has("err:"+tag) })
 				if !w.wr.has("ack:" + tag) {
@@ -330,6 +273,44 @@ func init() {
 				c17Wait("sink accept", func() bool { sink.mu.Lock(); defer sink.mu.Unlock(); return len(sink.conns) > nth })
 				w.tuns = append(w.tuns, &c17Tunnel{h: h, id: id, peer: peer, key: key, sinkIx: nth, rec: w.record(h, id)})
 				w.open[serial] = true
+				w.settle()
+				return w.out(nil)
+			case "openfail":
+				// an open that must be refused: kind = zero | loworder (unusable ephemeral key), notallowed,
+				// unresolvable, refused (exit); zero | loworder | nokey | refused (fwd)
+				kind, id, peer := f[2], c16U64x(f[3]), c16Atoix(f[4])
+				_, pub, err := crypto.GenerateEphemeralKeypair()
+				must(err)
+				switch kind {
+				case "zero":
+					pub = [crypto.KeySize]byte{}
+				case "loworder":
+					pub = [crypto.KeySize]byte{1}
+				}
+				w.req++
+				tag := fmt.Sprintf("%d:%d", peer, id)
+				if h == "exit" {
+					addr, port := "127.0.0.1", uint16(w.sinks["exit"].ln.Addr().(*net.TCPAddr).Port)
+					switch kind {
+					case "notallowed":
+						addr = "10.9.8.7"
+					case "unresolvable":
+						addr = "no-such-host.invalid"
+					case "refused":
+						port = uint16(w.dead.Port)
+					}
+					_ = w.ex.HandleStreamOpen(context.Background(), id, w.req, c17ID(peer), addr, port, pub)
+				} else {
+					key := "k"
+					switch kind {
+					case "nokey":
+						key = "missing"
+					case "refused":
+						key = "dead"
+					}
+					_ = w.fw.HandleStreamOpen(context.Background(), id, w.req, c17ID(peer), key, pub)
+				}
+				c17Wait("open answer", func() bool { return w.wr.has("ack:"+tag) || w.wr.has("err:"+tag) })
 				w.settle()
 				return w.out(nil)
 			case "data":
@@ -423,6 +404,24 @@ func c17Gen(w *bufio.Writer, seed int64, tier string) {
 	if tier == "thorough" {
 		n = 1500
 	}
+	// connection limit: the 7th and 8th open are refused, a slot freed by a close is usable again,
+	// refused opens of every kind in between never consume a slot
+	for _, h := range []string{"exit", "fwd"} {
+		fmt.Fprintf(w, "reset\n")
+		kinds := []string{"zero", "loworder", "notallowed", "unresolvable", "refused"}
+		if h == "fwd" {
+			kinds = []string{"zero", "loworder", "nokey", "refused"}
+		}
+		for i := 0; i < 8; i++ {
+			fmt.Fprintf(w, "open %s %d 1\n", h, 1+2*i)
+			fmt.Fprintf(w, "openfail %s %s %d 2\n", h, kinds[i%len(kinds)], 201+2*i)
+		}
+		fmt.Fprintf(w, "close %s 3 1\nopen %s 31 1\nopen %s 33 1\n", h, h, h)
+		for i := 0; i < 17; i++ {
+			fmt.Fprintf(w, "close %s %d 1\n", h, 1+2*i)
+		}
+		fmt.Fprintf(w, "end\n")
+	}
 	for c := 0; c < n; c++ {
 		fmt.Fprintf(w, "reset\n")
 		distinct := r.chance(50)
@@ -464,6 +463,18 @@ func c17Gen(w *bufio.Writer, seed int64, tier string) {
 				}
 				tuns = append(tuns, tun{h, id, peer, len(tuns)})
 				fmt.Fprintf(w, "open %s %d %d\n", h, id, peer)
+			case x < 47:
+				// opens that must be refused, of every kind, under fresh and under live ids
+				h := r.pickS("exit", "exit", "fwd")
+				kind := r.pickS("zero", "loworder", "notallowed", "unresolvable", "refused")
+				if h == "fwd" {
+					kind = r.pickS("zero", "loworder", "nokey", "refused")
+				}
+				id := 101 + uint64(r.intn(50))*2
+				if r.chance(30) {
+					id = tuns[r.intn(len(tuns))].id
+				}
+				fmt.Fprintf(w, "openfail %s %s %d %d\n", h, kind, id, 1+r.intn(3))
 			case x < 60:
 				t := tuns[r.intn(len(tuns))]
 				fmt.Fprintf(w, "data %s %d %d %d\n", t.h, t.id, t.peer, t.serial)
